@@ -340,22 +340,34 @@ func c14porcupine(a *run.Acc, goroutines, per int) {
 		go func(g int) {
 			defer wg.Done()
 			<-start
-			for i := 0; i < per; i++ {
-				idx := -1
+			// the constructions of one goroutine follow each other back to back (nothing but the clock in between), so that
+			// constructions of different goroutines overlap even on a loaded machine; the indices are read afterwards
+			type built struct {
+				call, ret int64
+				idx       *int
+				m         parsley.Parser
+			}
+			bs := make([]built, per)
+			for i := range bs {
+				idx := new(int)
+				*idx = -1
+				bs[i].idx = idx
 				probe := parser.Func(func(ctx *parsley.Context, lrc data.IntMap, pos parsley.Pos) (parsley.Node, data.IntSet, parsley.Error) {
 					if ks := lrc.Keys(); len(ks) == 1 {
-						idx = ks[0] // with an empty incoming context the only key is this Memoize's own index
+						*idx = ks[0] // with an empty incoming context the only key is this Memoize's own index
 					}
 					return nil, data.EmptyIntSet, nil
 				})
-				call := atomic.AddInt64(&clock, 1)
-				m := combinator.Memoize(probe)
-				ret := atomic.AddInt64(&clock, 1)
+				bs[i].call = atomic.AddInt64(&clock, 1)
+				bs[i].m = combinator.Memoize(probe)
+				bs[i].ret = atomic.AddInt64(&clock, 1)
+			}
+			for i := range bs {
 				f := text.NewFile("f", []byte("x"))
 				ctx := parsley.NewContext(parsley.NewFileSet(f), text.NewReader(f))
-				m.Parse(ctx, data.EmptyIntMap, f.Pos(0))
+				bs[i].m.Parse(ctx, data.EmptyIntMap, f.Pos(0))
 				mu.Lock()
-				ops = append(ops, porcupine.Operation{ClientId: g, Input: nil, Call: call, Output: idx, Return: ret})
+				ops = append(ops, porcupine.Operation{ClientId: g, Input: nil, Call: bs[i].call, Output: *bs[i].idx, Return: bs[i].ret})
 				mu.Unlock()
 			}
 		}(g)
@@ -433,7 +445,7 @@ func c14exec(j run.Job, a *run.Acc) {
 		}
 	case "index-allocation":
 		for rep := 0; rep < j.N; rep++ {
-			g, per := 2+r.Intn(7), 30+r.Intn(40)
+			g, per := 2+r.Intn(15), 30+r.Intn(40)
 			if !a.Begin() {
 				continue
 			}
@@ -512,8 +524,8 @@ func init() {
 			for i := 0; i < nj; i++ {
 				jobs = append(jobs, run.Job{Family: "shared-graphs", Seed: seed*1000 + int64(i), N: reps, P: map[string]int{"iters": iters, "yield": []int{0, 7, 3}[i%3]}})
 			}
-			jobs = append(jobs, run.Job{Family: "index-allocation", Seed: seed*1000 + 500, N: reps * 3})
-			jobs = append(jobs, run.Job{Family: "index-allocation", Seed: seed*1000 + 501, N: reps * 3})
+			jobs = append(jobs, run.Job{Family: "index-allocation", Seed: seed*1000 + 500, N: reps * 12})
+			jobs = append(jobs, run.Job{Family: "index-allocation", Seed: seed*1000 + 501, N: reps * 12})
 			return jobs
 		},
 		Exec:       c14exec,
